@@ -42,6 +42,8 @@ def judge(ctx: Ctx, nd: tg.Node, r: tg.Verdict, out: t.Tuple[str, t.Any], v: t.A
 
 def check(case: t.Any, ctx: Ctx) -> None:
     import pane
+    from .. import refcheck
+    refcheck.run()      # once per worker: the reference must agree with every example the repository's own tests pin
     (spec, v, how) = case[:3]
     nd = tg.node(spec)
     T = nd.pytype()
